@@ -839,6 +839,12 @@ impl<'a, Input: InputIndexer> MatchAttempter<'a, Input> {
 
                     &Insn::EndCaptureGroup(cg_idx) => {
                         let cg = self.s.groups.mat(cg_idx as usize);
+                        // Closing the group must be undone when we backtrack into the group,
+                        // else a later path would observe a stale, closed group.
+                        self.bts.push(BacktrackInsn::SetCaptureGroup {
+                            id: cg_idx,
+                            data: *cg,
+                        });
                         if Dir::FORWARD {
                             debug_assert!(
                                 cg.start_matched(),
